@@ -1,18 +1,101 @@
-(* C25 — The introspection depth limit does not depend on fragments. *)
-From ApolloVerif Require Import Base.Chars Intro.MaxDepth.
+(* C25 — The introspection depth limit does not depend on fragments.
+   Property theorems only.  Model: Intro/MaxDepth.v (check_selection_set / check_max_depth as of /repo HEAD,
+   i.e. after the D16 fix a863a6a), specification: ExpandedDepth (expanded nesting depth of list fields).
+   Fuel: the model's recursion through fragment definitions is fuel-bounded; [Checks frs op v] means
+   "some fuel gives the verdict v, and v is not out-of-fuel", [ExpandedDepth frs op x] likewise. *)
+From ApolloVerif Require Import Base.Chars Intro.MaxDepth Intro.MaxDepthProofs.
 
-Definition w_possibleTypes := n_possibleTypes.
+(* The check rejects iff the expanded depth reaches MAX_LISTS_DEPTH = 3; it always terminates with Ok or Err
+   (no panic) on acyclic fragment maps; the verdict does not depend on the fuel.
+   Spreads of undefined fragments are allowed (the code skips them, the expansion drops them), so the
+   DESIGN.md hypothesis spreads_defined is not needed. *)
+Theorem C25_iff : forall frs op, acyclic frs ->
+  exists x, ExpandedDepth frs op x /\
+    (exists v, Checks frs op v) /\
+    (forall v, Checks frs op v ->
+       (v = VErr <-> MAX_LISTS_DEPTH <= x) /\ (v = VOk <-> x < MAX_LISTS_DEPTH)).
+Proof. exact check_iff_acyclic. Qed.
+Check C25_iff : forall frs op, acyclic frs ->
+  exists x, ExpandedDepth frs op x /\
+    (exists v, Checks frs op v) /\
+    (forall v, Checks frs op v ->
+       (v = VErr <-> MAX_LISTS_DEPTH <= x) /\ (v = VOk <-> x < MAX_LISTS_DEPTH)).
+Print Assumptions C25_iff.
+
+(* the same without acyclicity, for any operation whose expansion terminates *)
+Theorem C25_iff_expanded : forall frs op x, ExpandedDepth frs op x ->
+  (exists v, Checks frs op v) /\
+  (forall v, Checks frs op v ->
+     (v = VErr <-> MAX_LISTS_DEPTH <= x) /\ (v = VOk <-> x < MAX_LISTS_DEPTH)).
+Proof. exact check_iff. Qed.
+Check C25_iff_expanded : forall frs op x, ExpandedDepth frs op x ->
+  (exists v, Checks frs op v) /\
+  (forall v, Checks frs op v ->
+     (v = VErr <-> MAX_LISTS_DEPTH <= x) /\ (v = VOk <-> x < MAX_LISTS_DEPTH)).
+Print Assumptions C25_iff_expanded.
+
+(* two operations, each with its own fragment definitions, whose expansions (named and inline fragments
+   replaced by their fields) are the same field tree, get the same verdict *)
+Theorem C25_fragment_independent : forall frs1 op1 frs2 op2 e,
+  acyclic frs1 -> acyclic frs2 ->
+  Expansion frs1 op1 e -> Expansion frs2 op2 e ->
+  forall v1 v2, Checks frs1 op1 v1 -> Checks frs2 op2 v2 -> v1 = v2.
+Proof. exact fragment_independent. Qed.
+Check C25_fragment_independent : forall frs1 op1 frs2 op2 e,
+  acyclic frs1 -> acyclic frs2 ->
+  Expansion frs1 op1 e -> Expansion frs2 op2 e ->
+  forall v1 v2, Checks frs1 op1 v1 -> Checks frs2 op2 v2 -> v1 = v2.
+Print Assumptions C25_fragment_independent.
+
+(* the specification is a function of the expansion: the expanded depth of (frs, op) is the depth of the
+   fragment-free field tree it expands to, and that tree exists *)
+Theorem C25_depth_of_expansion : forall frs op x, ExpandedDepth frs op x ->
+  (exists e, Expansion frs op e) /\ (forall e, Expansion frs op e -> ExpandedDepth [] e x).
+Proof. exact depth_of_expansion. Qed.
+Check C25_depth_of_expansion : forall frs op x, ExpandedDepth frs op x ->
+  (exists e, Expansion frs op e) /\ (forall e, Expansion frs op e -> ExpandedDepth [] e x).
+Print Assumptions C25_depth_of_expansion.
+
+(* ---- the code before the fix (finding D16), kept as a witness:
+   fragment F on __Type { possibleTypes { possibleTypes { name } } }
+   { ...F possibleTypes { ...F } }          F has own depth 2, spread at depth 0 and again at depth 1 *)
 Definition w_name : str := [110;97;109;101].
 Definition w_F : str := [70].
-(* fragment F on __Type { possibleTypes { possibleTypes { name } } }
-   { ...F possibleTypes { ...F } } *)
 Definition w_frs : fragmap :=
-  [(w_F, [SField w_possibleTypes [SField w_possibleTypes [SField w_name []]]])].
-Definition w_op : list sel := [SSpread w_F; SField w_possibleTypes [SSpread w_F]].
+  [(w_F, [SField n_possibleTypes [SField n_possibleTypes [SField w_name []]]])].
+Definition w_op : list sel := [SSpread w_F; SField n_possibleTypes [SSpread w_F]].
 
-Theorem C25_refuted :
-  check_max_depth 10 w_frs w_op = VOk /\ xdepth 10 w_frs w_op = Some 3 /\ known_c25_b 10 w_frs w_op = true.
+Theorem C25_old_refuted :
+  check_max_depth_old 10 w_frs w_op = VOk /\ check_max_depth 10 w_frs w_op = VErr /\
+  xdepth 10 w_frs w_op = Some 3.
 Proof. vm_compute. auto. Qed.
-Check C25_refuted :
-  check_max_depth 10 w_frs w_op = VOk /\ xdepth 10 w_frs w_op = Some 3 /\ known_c25_b 10 w_frs w_op = true.
-Print Assumptions C25_refuted.
+Check C25_old_refuted :
+  check_max_depth_old 10 w_frs w_op = VOk /\ check_max_depth 10 w_frs w_op = VErr /\
+  xdepth 10 w_frs w_op = Some 3.
+Print Assumptions C25_old_refuted.
+
+(* ---- non-vacuity: the witness meets the hypotheses of the theorems above *)
+Example C25_nonvacuous_acyclic : acyclic w_frs.
+Proof.
+  exists (fun _ => O). intros n body Hn m body' Hs Hm. exfalso.
+  cbn [w_frs md_assoc] in Hn. destruct (md_str_eqb n w_F); [|discriminate]. injection Hn as <-.
+  repeat match goal with
+         | H : SpreadIn _ (_ :: _) |- _ => inversion H; clear H; subst
+         | H : SpreadIn _ [] |- _ => inversion H
+         end.
+Qed.
+
+Example C25_nonvacuous :
+  ExpandedDepth w_frs w_op 3 /\ Checks w_frs w_op VErr /\
+  Expansion w_frs w_op
+    [SField n_possibleTypes [SField n_possibleTypes [SField w_name []]];
+     SField n_possibleTypes [SField n_possibleTypes [SField n_possibleTypes [SField w_name []]]]] /\
+  Expansion [] [SField n_possibleTypes [SField n_possibleTypes [SField w_name []]];
+                SInline [SField n_possibleTypes [SInline [SField n_possibleTypes [SField n_possibleTypes [SField w_name []]]]]]]
+    [SField n_possibleTypes [SField n_possibleTypes [SField w_name []]];
+     SField n_possibleTypes [SField n_possibleTypes [SField n_possibleTypes [SField w_name []]]]].
+Proof.
+  split; [exists 10%nat; vm_compute; reflexivity|].
+  split; [exists 10%nat; vm_compute; split; [reflexivity|discriminate]|].
+  split; exists 10%nat; vm_compute; reflexivity.
+Qed.
